@@ -289,6 +289,8 @@ def run(ctx):
     r13_3(ctx)
     r13_4(ctx)
     r13_5(ctx)
+    from . import c10
+    c10.r10_7(ctx)
     ctx.note("periodic poll liveness (clean-up before the emptiness test of executing_tasks) is decided by C10 R10.7")
     for k, v in WRITEBACK_EXEMPT.items():
         ctx.trust(f"frozen write-back exemption: {k} - {v}")
